@@ -256,10 +256,11 @@ where
 			})
 			.filter(|tx_entry| {
 				if let Some(v) = query_args.min_confirmed_timestamp {
+					// an entry without a confirmation time does not satisfy the criterion
 					if let Some(t) = tx_entry.confirmation_ts {
 						t >= v
 					} else {
-						true
+						false
 					}
 				} else {
 					true
@@ -267,10 +268,11 @@ where
 			})
 			.filter(|tx_entry| {
 				if let Some(v) = query_args.max_confirmed_timestamp {
+					// an entry without a confirmation time does not satisfy the criterion
 					if let Some(t) = tx_entry.confirmation_ts {
 						t <= v
 					} else {
-						true
+						false
 					}
 				} else {
 					true
